@@ -124,17 +124,44 @@ Proof.
   intros s H. rewrite (app_removelast_last 0 H) at 1. apply rev_unit.
 Qed.
 
-Lemma py_strip_id : forall c r, py_isspace c = false -> py_isspace (last (c :: r) 0) = false ->
-  py_strip (c :: r) = c :: r.
-Proof.
-  intros c r Hc Hl. unfold py_strip. cbn [lstrip]. rewrite Hc.
-  rewrite (rev_last (c :: r)) by discriminate. cbn [lstrip]. rewrite Hl.
-  cbn [rev]. rewrite rev_involutive. symmetry. apply app_removelast_last. discriminate.
-Qed.
-
 Lemma render_header_cons : forall v y l,
   render_header (v :: y :: l) = (63 :: v) ++ 9 :: render_header (y :: l).
 Proof. reflexivity. Qed.
+
+Lemma rstrip_crlf_id : forall s, s <> [] -> (last s 0 =? 13) || (last s 0 =? 10) = false -> rstrip_crlf s = s.
+Proof.
+  intros s Hne Hl. unfold rstrip_crlf. rewrite (rev_last s Hne). cbn [drop_crlf]. rewrite Hl.
+  cbn [rev]. rewrite rev_involutive. symmetry. apply app_removelast_last. exact Hne.
+Qed.
+
+Lemma forallb_last : forall (p : N -> bool) s, s <> [] -> forallb p s = true -> p (last s 0) = true.
+Proof.
+  intros p. induction s as [|c [|c2 r] IH]; intros Hne H; [congruence| |].
+  - simpl in H. apply andb_true_iff in H. tauto.
+  - cbn [forallb] in H. apply andb_true_iff in H. destruct H as [_ H].
+    change (last (c :: c2 :: r) 0) with (last (c2 :: r) 0). apply IH; [discriminate|exact H].
+Qed.
+
+(* the characters of a header line *)
+Definition hdr_char (c : N) : bool := (c =? 63) || (c =? 9) || var_first c || var_rest c.
+
+Lemma header_chars : forall vars, forallb varname_ok vars = true -> forallb hdr_char (render_header vars) = true.
+Proof.
+  induction vars as [|v [|y l] IH]; intro H; [reflexivity| |].
+  - cbn [forallb] in H. apply andb_true_iff in H. destruct H as [Hv _].
+    destruct v as [|c a]; [discriminate|]. simpl in Hv. apply andb_true_iff in Hv. destruct Hv as [Hc Ha].
+    unfold render_header. cbn [map join_tab forallb]. unfold hdr_char at 2. rewrite Hc, orb_true_r. cbn [andb].
+    apply forallb_forall. intros x Hx. rewrite forallb_forall in Ha. unfold hdr_char. rewrite (Ha x Hx).
+    now rewrite !orb_true_r.
+  - cbn [forallb] in H. apply andb_true_iff in H. destruct H as [Hv Hr].
+    rewrite render_header_cons. rewrite forallb_app. cbn [forallb]. rewrite (IH Hr).
+    destruct v as [|c a]; [discriminate|]. simpl in Hv. apply andb_true_iff in Hv. destruct Hv as [Hc Ha].
+    cbn [forallb]. unfold hdr_char at 2. rewrite Hc, orb_true_r. cbn [andb].
+    assert (Hfa : forallb hdr_char a = true).
+    { apply forallb_forall. intros x Hx. rewrite forallb_forall in Ha. unfold hdr_char. rewrite (Ha x Hx).
+      now rewrite !orb_true_r. }
+    rewrite Hfa. reflexivity.
+Qed.
 
 Lemma scan_header_ok : forall vars fuel,
   vars <> [] -> forallb varname_ok vars = true -> (List.length vars <= fuel)%nat ->
@@ -207,16 +234,14 @@ Qed.
 (* ------------------------------------------------------------------ *)
 (* the document *)
 
-Theorem tsv_doc_ok : forall st bytes vars rows,
+Theorem tsv_doc_ok : forall st vars rows,
   vars <> [] -> forallb varname_ok vars = true ->
-  py_isspace (last (render_header vars) 0) = false ->
   (forall r, In r rows -> forall v, In v vars -> cell_ok st (cell v r)) ->
   (forall r, In r rows -> forall t, In t (row_terms r) -> term_tsv_ok t = true) ->
-  bytes && existsb raw_break (render_doc st vars rows) = false ->
-  tsv_parse bytes (render_doc st vars rows)
+  tsv_parse (render_doc st vars rows)
   = OSel vars (map (fun r => zip_row vars (map (fun v => cell v r) vars)) rows).
 Proof.
-  intros st bytes vars rows Hne Hvn Hsp Hcells Htsv Hbrk.
+  intros st vars rows Hne Hvn Hcells Htsv.
   (* no line feed in a line *)
   assert (Hh_nolf : nolf (render_header vars) = true).
   { unfold render_header. apply join_tab_nolf. intros x Hx. apply in_map_iff in Hx.
@@ -226,51 +251,43 @@ Proof.
   { intros r Hr. unfold render_row. apply join_tab_nolf. intros x Hx. apply in_map_iff in Hx.
     destruct Hx as [v [E Hv]]. subst x. destruct (cell v r) as [t|] eqn:Ec; [|reflexivity].
     cbn [render_cell]. apply render_term_nolf. eapply Htsv; eauto. eapply cell_In; eauto. }
-  (* hence every character of a line is a line character *)
-  assert (Hline : forall l, nolf l = true -> (forall c, In c l -> In c (render_doc st vars rows)) ->
-                            forallb (line_char bytes) l = true).
-  { intros l Hn Hin. apply forallb_forall. intros c Hc. unfold line_char.
-    unfold nolf in Hn. rewrite forallb_forall in Hn. rewrite (Hn c Hc). cbn [andb].
-    destruct bytes; [|reflexivity]. cbn [andb] in Hbrk |- *.
-    pose proof (existsb_false _ _ _ Hbrk c (Hin c Hc)) as Hb. unfold raw_break in Hb.
-    rewrite (Hn c Hc), andb_true_r in Hb. now rewrite Hb. }
+  (* hence the document is cut exactly at the separators *)
+  assert (Hline : forall l, nolf l = true -> forallb (line_char false) l = true).
+  { intros l Hn. apply forallb_forall. intros c Hc. unfold line_char.
+    unfold nolf in Hn. rewrite forallb_forall in Hn. rewrite (Hn c Hc). reflexivity. }
   unfold tsv_parse, render_doc.
-  rewrite split_lines_line.
-  2:{ apply Hline; auto. intros c Hc. unfold render_doc. apply in_or_app. left. exact Hc. }
-  rewrite split_lines_rows.
-  2:{ intros r Hr. apply Hline; auto. intros c Hc. unfold render_doc. apply in_or_app. right. right.
-      apply in_flat_map. exists r. split; auto. apply in_or_app. left. exact Hc. }
+  rewrite split_lines_line by (apply Hline; auto).
+  rewrite split_lines_rows by (intros r Hr; apply Hline; auto).
   cbn [rev app].
   destruct (header_head vars Hne) as [hr Eh].
-  assert (Hstrip : py_strip (render_header vars) = render_header vars).
-  { rewrite Eh. apply py_strip_id; [reflexivity|]. rewrite <- Eh. exact Hsp. }
+  assert (Hstrip : rstrip_crlf (render_header vars) = render_header vars).
+  { apply rstrip_crlf_id; [rewrite Eh; discriminate|].
+    pose proof (forallb_last hdr_char (render_header vars) ltac:(rewrite Eh; discriminate) (header_chars vars Hvn)) as Hl.
+    destruct (N.eqb_spec (last (render_header vars) 0) 13) as [E|_]; [rewrite E in Hl; discriminate|].
+    destruct (N.eqb_spec (last (render_header vars) 0) 10) as [E|_]; [rewrite E in Hl; discriminate|].
+    reflexivity. }
   rewrite Hstrip. rewrite scan_header_ok; auto.
   - rewrite (tsv_rows_ok st vars rows Hne Hcells). reflexivity.
   - pose proof (header_length vars). lia.
 Qed.
 
-Lemma tsv_ok : forall c, wf c = true -> kf c = 0 -> c_fmt c = FTsv -> spec_ok c (model_obs c) = true.
+Lemma tsv_ok : forall c, wf c = true -> c_fmt c = FTsv -> spec_ok c (model_obs c) = true.
 Proof.
-  intros c Hwf Hkf Hf. unfold spec_ok, model_obs. rewrite Hf.
+  intros c Hwf Hf. unfold spec_ok, model_obs. rewrite Hf.
   unfold wf in Hwf. rewrite Hf in Hwf.
   apply andb_true_iff in Hwf. destruct Hwf as [Hwf Ht]. apply andb_true_iff in Hwf. destruct Hwf as [Hnd Hrows].
   apply andb_true_iff in Ht. destruct Ht as [Ht Htsv]. apply andb_true_iff in Ht. destruct Ht as [Ht Hvn].
   apply andb_true_iff in Ht. destruct Ht as [Hask Hne].
   destruct (c_ask c) eqn:Ea; [discriminate|].
   assert (Hne' : c_vars c <> []) by (destruct (c_vars c); [discriminate|discriminate]).
-  unfold kf in Hkf. rewrite Hf in Hkf.
-  destruct (py_isspace (last (render_header (c_vars c)) 0)) eqn:E1; [discriminate|].
-  destruct (c_bytes c && existsb raw_break (render_doc (c_style c) (c_vars c) (c_rows c))) eqn:E5; [discriminate|].
-  destruct (existsb (uses_cross (c_style c)) (case_terms c)) eqn:E6; [discriminate|].
   apply nodup_str_NoDup in Hnd.
   assert (Htsv' : forall r, In r (c_rows c) -> forall t, In t (row_terms r) -> term_tsv_ok t = true).
   { intros r Hr t Hin. rewrite forallb_forall in Htsv. specialize (Htsv r Hr). rewrite forallb_forall in Htsv. auto. }
   rewrite tsv_doc_ok; auto.
-  - rewrite list_eqb_refl by apply str_eqb_refl. cbn [andb]. apply rows_ok_zip. auto.
+  - unfold spec_select. rewrite list_eqb_refl by apply str_eqb_refl. cbn [andb]. apply rows_ok_zip. auto.
   - intros r Hr v Hv. destruct (cell v r) as [t|] eqn:Ec; [|exact I]. cbn [cell_ok].
-    pose proof (cell_In v r t Ec) as Hin. repeat split.
+    pose proof (cell_In v r t Ec) as Hin. split.
     + rewrite forallb_forall in Hrows. specialize (Hrows r Hr). unfold row_wf in Hrows.
       apply andb_true_iff in Hrows. destruct Hrows as [_ Hw]. rewrite forallb_forall in Hw. auto.
     + eauto.
-    + apply (existsb_false _ _ _ E6). unfold case_terms. apply in_flat_map. exists r. auto.
 Qed.
